@@ -398,3 +398,17 @@ Definition run_call_at (bin : bool) (tsep : str) (t : tree) (st : pos) (c : hcal
    its copied ancestors; get_subtree returns a root *)
 Definition top_depth (st : pos) (c : hcall) : nat :=
   match c with CPrune _ _ _ _ => S (length st) | CSubtree _ _ => 1 end.
+
+(* The whole copy prune_tree leaves behind when it is called on the node at st of a Node tree (the
+   returned node is still attached to it: result.root).  Derived description, compared with
+   result.root by the harness: a node is cut loose iff the detach rule says so (absolute positions;
+   only when paths were given) or it lies below the start node deeper than max_depth levels (the level
+   groups start at the start node; nothing outside its subtree is touched by the depth cut). *)
+Definition whole_alive (given : bool) (targets : list pos) (exact : bool) (st : pos) (max_depth : nat)
+           (p : pos) : bool :=
+  negb (given && detached targets exact p)
+  && (negb (prefixb st p) || Nat.eqb max_depth 0 || Nat.leb (S (length p) - length st) max_depth).
+
+Definition whole_copy_at (given : bool) (targets : list pos) (exact : bool) (st : pos) (max_depth : nat)
+           (t : tree) : tree :=
+  filter_tree (whole_alive given targets exact st max_depth) (copy_tree t).
